@@ -39,10 +39,10 @@ def main(tag):
         demo = meta["demo"].replace("&amp;", "&")
         # the demo line is free text: pick out the `cp SEED/x dest` copies and the `go test …` command
         copies = re.findall(r"cp\s+(SEED/\S+)\s+(\S+)", demo)
-        msh = re.search(r"\bsh\s+(SEED/\S+\.sh)", demo)
+        msh = re.search(r"\b(?:ba)?sh\s+(SEED/\S+\.sh)", demo)
         m = re.search(r"go test[^;&(\n`]*", demo)
         if msh:
-            cmd = "sh " + msh.group(1)
+            cmd = "bash " + msh.group(1)
         elif m:
             gotest = re.sub(r"^go test ", "go test -trimpath ", m.group(0).strip())
             cmd = " && ".join(["cp %s %s" % c for c in copies] + [gotest])
